@@ -54,6 +54,10 @@ fn check_history(rep: &Report, h: &ZobristHasher, root_fen: &str, startpos: bool
     // reference multiset over the oracle's positions along the path
     let mut seq: Vec<Pos> = vec![root];
     for m in moves {
+        if !seq.last().unwrap().legal_moves().contains(m) {
+            // a wrong test input is not a verdict
+            crate::report::machinery_error(&format!("the history sweep contains an illegal game: {} ({} is not legal)", cmd, m.uci()));
+        }
         let next = seq.last().unwrap().make(m);
         seq.push(next);
     }
@@ -175,8 +179,16 @@ pub fn run(rep: &Report, session_part: Option<&dyn Fn(&Report) -> (u64, u64)>) -
         // (root, startpos, cycle, irreversible interlude, second cycle)
         ("4k3/8/8/8/8/8/4P3/4K2R w K - 0 1", false, vec![mv("h1h2"), mv("e8d8"), mv("h2h1"), mv("d8e8")], vec![mv("e2e3"), mv("e8e7")], vec![mv("h1h2"), mv("e7d7"), mv("h2h1"), mv("d7e7")]),
         ("rnbqkbnr/pppppppp/8/8/8/8/PPPPPPPP/RNBQKBNR w KQkq - 0 1", true, vec![mv("g1f3"), mv("g8f6"), mv("f3g1"), mv("f6g8")], vec![mv("e2e4"), mv("e7e5")], vec![mv("g1f3"), mv("g8f6"), mv("f3g1"), mv("f6g8")]),
-        ("7k/8/8/8/8/8/R7/K6r w - - 0 1", false, vec![mv("a2b2"), mv("h8g8"), mv("b2a2"), mv("g8h8")], vec![mv("a2h2"), mv("h1h2")], vec![mv("a1b1"), mv("h8g8"), mv("b1a1"), mv("g8h8")]),
+        ("7k/8/8/8/8/8/R6r/K7 w - - 0 1", false, vec![mv("a2b2"), mv("h8g8"), mv("b2a2"), mv("g8h8")], vec![mv("a2h2"), mv("h8g8")], vec![mv("a1b1"), mv("g8f8"), mv("b1a1"), mv("f8g8")]),
     ];
+    let mut cycles = cycles;
+    // non-king pieces moving on the four square pairs castling uses (e1g1, e1c1, e8g8, e8c8)
+    cycles.push(("k7/8/8/8/8/8/8/4R2K w - - 0 1", false, vec![mv("e1g1"), mv("a8b8"), mv("g1e1"), mv("b8a8")], vec![mv("h1h2"), mv("a8a7")], vec![mv("e1c1"), mv("a7b7"), mv("c1e1"), mv("b7a7")]));
+    cycles.push(("4r2k/8/8/8/8/8/8/K7 b - - 0 1", false, vec![mv("e8g8"), mv("a1b1"), mv("g8e8"), mv("b1a1")], vec![mv("h8h7"), mv("a1a2")], vec![mv("e8c8"), mv("a2b2"), mv("c8e8"), mv("b2a2")]));
+    cycles.push(("3q3k/8/8/8/8/8/8/K3Q3 w - - 0 1", false, vec![mv("e1c1"), mv("d8e8"), mv("c1e1"), mv("e8d8")], vec![mv("a1a2"), mv("h8h7")], vec![mv("e1g1"), mv("d8e8"), mv("g1e1"), mv("e8d8")]));
+    // the same square pairs with the shuttling side materially worse (so that the draw is what saves it)
+    cycles.push(("3q3k/8/8/8/8/8/8/K3R3 w - - 0 1", false, vec![mv("e1g1"), mv("h8h7"), mv("g1e1"), mv("h7h8")], vec![mv("a1a2"), mv("h8g8")], vec![mv("e1c1"), mv("g8g7"), mv("c1e1"), mv("g7g8")]));
+    cycles.push(("k3r3/8/8/8/8/8/8/3Q3K b - - 0 1", false, vec![mv("e8g8"), mv("h1h2"), mv("g8e8"), mv("h2h1")], vec![mv("a8a7"), mv("h1g1")], vec![mv("e8c8"), mv("g1g2"), mv("c8e8"), mv("g2g1")]));
     let ns: Vec<usize> = if quick { vec![1, 2, 3, 4, 5, 10, 50, 100] } else { (1..=100).collect() };
     for (fen, startpos, cyc, inter, cyc2) in &cycles {
         for &n in &ns {
